@@ -286,7 +286,10 @@ func appendOrder(f *idlgen.File, kind byte, n int) {
 // addShadow: constants with the same name and different values in file 0 and in one of its includes, referenced
 // bare and qualified from values whose TYPE lives in the include: literals of a foreign struct, typedef'd foreign
 // containers (elements, and a bare identifier as the whole value), field defaults. Reports whether it applied.
-func addShadow(p *idlgen.Program, tag int, count func(string)) bool {
+// onlyRoot adds scalar uses of a name that only file 0 defines: a generator that looks bare names up in the include
+// rejects those loudly, which would hide the silent wrong values of the same-named constants -- so the two kinds
+// of program are kept apart (as for the colliding field names).
+func addShadow(p *idlgen.Program, tag int, onlyRoot bool, count func(string)) bool {
 	f0 := p.Files[0]
 	if len(f0.Includes) == 0 {
 		return false
@@ -318,24 +321,37 @@ func addShadow(p *idlgen.Program, tag int, count func(string)) bool {
 	f0.Consts = append(f0.Consts,
 		cdef(n("SHADOW"), i32, cI("99", vI(99))), cdef(n("SHADOWS"), str, cQ("root")), cdef(n("ONLYROOT"), i32, cI("7", vI(7))),
 		cdef(n("SHADOWLIST"), tl(i32), cL(vL(vI(5)), cI("5", vI(5)))),
-		cdef(n("SQ1_"), tQ, cM(q(99, "root", vL(vI(99), vI(inc), vI(7))), cQ("limit"), bare(), cQ("name"), cId(n("SHADOWS"), vS("root")),
-			cQ("xs"), cL(vL(vI(99), vI(inc), vI(7)), bare(), qual(), only()))),
+		cdef(n("ROOTLIST"), tl(i32), cL(vL(vI(6)), cI("6", vI(6)))),
+		cdef(n("SQ1_"), tQ, cM(q(99, "root", vL(vI(99), vI(inc))), cQ("limit"), bare(), cQ("name"), cId(n("SHADOWS"), vS("root")),
+			cQ("xs"), cL(vL(vI(99), vI(inc)), bare(), qual()))),
 		cdef(n("SQ2_"), tQ, cM(q(inc, "inc", vN()), cQ("limit"), qual(), cQ("name"), cId(pre+n("SHADOWS"), vS("inc")))),
-		cdef(n("SQ3_"), tQ, cM(q(7, "", vL(vI(5))), cQ("limit"), only(), cQ("xs"), cId(n("SHADOWLIST"), vL(vI(5))))),
-		cdef(n("SL1_"), tL, cL(vL(vI(99), vI(inc), vI(7)), bare(), qual(), only())),
+		cdef(n("SQ3_"), tQ, cM(q(0, "", vL(vI(5))), cQ("xs"), cId(n("SHADOWLIST"), vL(vI(5))))),
+		cdef(n("SQ4_"), tQ, cM(q(0, "", vL(vI(6))), cQ("xs"), cId(n("ROOTLIST"), vL(vI(6))))),
+		cdef(n("SL1_"), tL, cL(vL(vI(99), vI(inc)), bare(), qual())),
 		cdef(n("SL2_"), tL, cId(n("SHADOWLIST"), vL(vI(5)))),
 		cdef(n("SL3_"), tL, cId(pre+n("SHADOWLIST"), vL(vI(inc)))),
-		cdef(n("SM1_"), tM, cM(vM(vS("a"), vI(99), vS("b"), vI(7), vS("c"), vI(inc)), cQ("a"), bare(), cQ("b"), only(), cQ("c"), qual())),
+		cdef(n("SL4_"), tL, cId(n("ROOTLIST"), vL(vI(6)))),
+		cdef(n("SM1_"), tM, cM(vM(vS("a"), vI(99), vS("c"), vI(inc)), cQ("a"), bare(), cQ("c"), qual())),
 	)
-	appendOrder(f0, 'c', 11)
-	f0.Structs = append(f0.Structs, &idlgen.Struct{Kind: 's', Name: n("ShadowH"), Fields: []*idlgen.Field{
+	appendOrder(f0, 'c', 14)
+	hf := []*idlgen.Field{
 		fld(1, "q", rD, tQ, cM(q(99, "", vN()), cQ("limit"), bare())),
-		fld(2, "l", rD, tL, cL(vL(vI(7), vI(99)), only(), bare())),
+		fld(2, "l", rD, tL, cL(vL(vI(99), vI(99)), bare(), bare())),
 		fld(3, "m", rO, tM, cM(vM(vS("k"), vI(99)), cQ("k"), bare())),
-	}})
+	}
+	if onlyRoot {
+		f0.Consts = append(f0.Consts,
+			cdef(n("SO1_"), tQ, cM(q(7, "", vL(vI(7), vI(99))), cQ("limit"), only(), cQ("xs"), cL(vL(vI(7), vI(99)), only(), bare()))),
+			cdef(n("SO2_"), tL, cL(vL(vI(7)), only())),
+			cdef(n("SO3_"), tM, cM(vM(vS("b"), vI(7)), cQ("b"), only())),
+		)
+		appendOrder(f0, 'c', 3)
+		hf = append(hf, fld(4, "o", rD, tL, cL(vL(vI(7)), only())))
+	}
+	f0.Structs = append(f0.Structs, &idlgen.Struct{Kind: 's', Name: n("ShadowH"), Fields: hf})
 	appendOrder(f0, 's', 1)
 	if count != nil {
-		count("shadow.applied")
+		count(map[bool]string{false: "shadow.same_names", true: "shadow.with_root_only_names"}[onlyRoot])
 	}
 	return true
 }
@@ -401,10 +417,10 @@ func twoFiles(ns string) *idlgen.Program {
 	return &idlgen.Program{Files: []*idlgen.File{a, b}}
 }
 
-func catalogueShadow() *idlgen.Program {
+func catalogueShadow(onlyRoot bool) *idlgen.Program {
 	p := twoFiles("shadow")
-	addShadow(p, 0, nil)
-	addShadow(p, 1, nil)
+	addShadow(p, 0, onlyRoot, nil)
+	addShadow(p, 1, onlyRoot, nil)
 	return p
 }
 
